@@ -195,4 +195,30 @@ PROPS = {
         "level_text": "Exploration: thousands to hundreds of thousands of diagrams and move sequences; identity and invariance are decided by an exact independent state sum. Right level: input/history property with a cheap exact oracle for bounded diagrams.",
         "level_note": "Trusts the oracle state sum (self-tested against the published Jones polynomial of 3_1 and chi of the oracle cube); bounded by 13 crossings.",
     },
+    "C02": {
+        "budget_s": {"quick": 150, "thorough": 2400},
+        "floor": {"quick": 800, "thorough": 30000},
+        "rule": "pairs (D, M.D): closures of random / table braid words (2..5 strands, <= 13 crossings quick / 18) under 1-8 braid-level moves (sigma sigma^-1 insertion/cancellation, braid relation incl. mixed signs, far commutation, "
+                "conjugation, Markov stabilisation/destabilisation of either sign) and table PD codes (<= 10 crossings) under 1-6 PD-level moves (edge relabelling, crossing permutation, global orientation reversal [a,b,c,d]->[c,d,a,b], "
+                "Reidemeister I kinks of the four kinds); rings i64, BigInt, Ratio<i64>, FF2, FF<3>; reduced for knots; pools of 1,4,16 threads; checks: bigraded table (homology of the bigraded pieces) of D = table of M.D; "
+                "table(mirror D) = free (i,j)->(-i,-j), torsion (i,j)->(1-i,-j); table of 'PD code of name N' = table of 'closure of braid word of name N' up to mirror; "
+                "soundness of the generator: both diagrams pass the oracle validator and have the same ORACLE bracket polynomial (else inconclusive); non-trivial = at least one move other than conjugation and >= 3 crossings; distinct = hash(D, M.D, reduced)",
+        "assumptions": COMMON_ASSUME + ["Reidemeister II/III are exercised at braid level (sigma sigma^-1 and the braid relation), Reidemeister I at both levels", "the two resource tables may follow different chirality conventions: equality is required only up to mirror there"],
+        "technique": "metamorphic monitor: two real Khovanov computations related by generated isotopy moves / mirroring must agree; move generator validated against an independent bracket-polynomial oracle",
+        "level_text": "Exploration of diagrams and move histories: thousands (quick) to hundreds of thousands of (diagram, move sequence, ring) tuples. The relation itself is the oracle; soundness rests on the generator, which is checked on every case by an independent invariant. Right level: the property quantifies over all move sequences, which can only be sampled.",
+        "level_note": "A generator bug that produced non-isotopic diagrams with equal bracket polynomial could cause a false alarm; none was observed on the unchanged tree over all seeds tried.",
+    },
+    "C03": {
+        "budget_s": {"quick": 150, "thorough": 2400},
+        "floor": {"quick": 300, "thorough": 5000},
+        "shards": 16,
+        "rule": "links: torus links T(2,5)..T(6,7) (odd and composite torsion; T(6,7) = 35 crossings), every 5th table diagram with <= 10 crossings (quick) / all <= 11, closures of random braid words (<= 11/14 letters, optionally one switched crossing); "
+                "for each link 14 real computations: bigraded tables by both library routes (homology of bigraded pieces / total homology split by generator q-degree) over i64, BigInt, i128, Ratio<i64>, FF2, FF<2>, FF<3>, reduced over i64 and FF2; "
+                "relations checked: two routes agree (Z, Q, F2, F3, reduced Z), i64 = i128 = BigInt, FF2 = FF<2>, rank_Q = free rank_Z, dim_Fp(i,j) = rank_Z(i,j) + #{p | torsion in (i,j)} + #{p | torsion in (i+1,j)}, "
+                "F2 unreduced = reduced (x) unknot; non-trivial = torsion present or >= 2 components; distinct = hash(PD, flags)",
+        "assumptions": COMMON_ASSUME + ["the relations are necessary conditions between library results (no external oracle here; C01 ties the tables to the definition for small diagrams)", "finding keys include the link so that a different link failing the same relation is reported as a new violation"],
+        "technique": "metamorphic / cross-configuration monitor: the same link computed over seven coefficient types and by two routes; universal-coefficient arithmetic evaluated by the monitor",
+        "level_text": "Exploration: hundreds to thousands of links, each computed 14 ways; the relations of the statement are evaluated exactly on the results. Right level: the property relates configurations of real runs; the first known counterexample needs a 35-crossing input far beyond unit tests, which the torus family reaches.",
+        "level_note": "Relations are necessary, not sufficient; combined with C01/C02 for absolute correctness.",
+    },
 }
